@@ -5,7 +5,7 @@
    clause is false (C11_halving_alone_refuted; 1x1 die, limit 1.5, n = 2). *)
 From FrameModel Require Import Num.QcTac Geometry.Rect Refine.Phase1 Refine.Phase1Facts
   Refine.Phase2 Refine.Phase2Facts Refine.DieRefine Refine.DieFacts Refine.GridFacts Refine.PermFacts
-  Refine.DieOps Refine.DieOpsFacts Cases.CmpC11.
+  Refine.DieOps Refine.DieOpsFacts Refine.ScaleFacts Cases.CmpC11.
 From Coq Require Import Permutation.
 Open Scope list_scope.
 Open Scope Qc_scope.
@@ -247,3 +247,25 @@ Theorem C11_stale_history :
     forallb (fun c => Qcleb (aspect_ratio c) (qc 2 1)) (refinable (final die10 tr)) = true.
 Proof. exact stale_history. Qed.
 Print Assumptions C11_stale_history.
+
+(* ---- absolute scale and small pieces (Refine/ScaleFacts.v) ---- *)
+(* the loop of split_refinable_regions that files the pieces under ground / specialised keeps every
+   piece, whatever its area: the refinable regions afterwards are the rectangles split_rectangles
+   returned, all of them *)
+Theorem C11_repartition_keeps_every_piece : forall d rects, Permutation (refinable (repartition d rects)) rects.
+Proof. exact repartition_keeps_every_piece. Qed.
+Print Assumptions C11_repartition_keeps_every_piece.
+
+Theorem C11_repartition_count : forall d rects, List.length (refinable (repartition d rects)) = List.length rects.
+Proof. exact repartition_count. Qed.
+Print Assumptions C11_repartition_count.
+
+(* the decisions of the refinement are the same for a die measured in other units (every length
+   multiplied by s > 0): well-formedness, the aspect ratio compared with the limit, the halving itself,
+   and which of two rectangles has the larger area *)
+Theorem C11_scale_decisions : forall s x y, 0 < s ->
+  wfb (scale s x) = wfb x /\ aspect_ratio (scale s x) = aspect_ratio x /\
+  split (scale s x) = option_map (fun p => (scale s (fst p), scale s (snd p))) (split x) /\
+  Qcltb (area (scale s x)) (area (scale s y)) = Qcltb (area x) (area y).
+Proof. exact scale_decisions. Qed.
+Print Assumptions C11_scale_decisions.
